@@ -28,6 +28,10 @@ pub enum Route {
     KeyF64,
     /// td_plural! / td_plural_ordinal! (`idx`: 0 cardinal, 1 ordinal; `val` indexes COUNTS)
     PluralMacro,
+    /// t_plural! / tu_plural! (and ordinal) closures on a context whose locale changes (`idx`: 0 cardinal, 1 ordinal)
+    CtxPlural,
+    /// td_string! on a number / currency key with a typed integer / f32 literal (`val` indexes fixture_table::TYPED)
+    KeyTyped,
 }
 
 impl Route {
@@ -42,6 +46,8 @@ impl Route {
             Route::KeyDisplay => "key_display",
             Route::KeyF64 => "key_f64",
             Route::PluralMacro => "plural_macro",
+            Route::CtxPlural => "ctx_plural",
+            Route::KeyTyped => "key_typed",
         }
     }
     fn from_name(s: &str) -> Option<Route> {
@@ -55,6 +61,8 @@ impl Route {
             "key_display" => Route::KeyDisplay,
             "key_f64" => Route::KeyF64,
             "plural_macro" => Route::PluralMacro,
+            "ctx_plural" => Route::CtxPlural,
+            "key_typed" => Route::KeyTyped,
             _ => return None,
         })
     }
@@ -73,7 +81,7 @@ pub struct Op {
 impl Op {
     pub fn to_json(&self) -> Value {
         let what = match self.route {
-            Route::KeyString | Route::KeyView | Route::KeyDisplay | Route::KeyF64 => KEYS[self.idx].text.trim().to_string(),
+            Route::KeyString | Route::KeyView | Route::KeyDisplay | Route::KeyF64 | Route::KeyTyped => KEYS[self.idx].text.trim().to_string(),
             Route::Site | Route::CtxView => SITES[self.idx].text.to_string(),
             _ => String::new(),
         };
@@ -89,7 +97,7 @@ impl Op {
     }
     fn spec(&self) -> Option<Spec> {
         match self.route {
-            Route::KeyString | Route::KeyView | Route::KeyDisplay | Route::KeyF64 => Some(KEYS[self.idx].spec),
+            Route::KeyString | Route::KeyView | Route::KeyDisplay | Route::KeyF64 | Route::KeyTyped => Some(KEYS[self.idx].spec),
             Route::Site | Route::CtxView => Some(SITES[self.idx].spec),
             _ => None,
         }
@@ -142,7 +150,9 @@ fn locale_of(i: usize) -> Locale {
         "de" => Locale::de,
         "ja" => Locale::ja,
         "ar" => Locale::ar,
-        _ => Locale::ru,
+        "ru" => Locale::ru,
+        "pt" => Locale::pt,
+        _ => Locale::pt_PT,
     }
 }
 
@@ -172,7 +182,9 @@ pub fn generate(rng: &mut Rng, with_faults: bool) -> Plan {
             _ => *rng.pick(&locs),
         };
         let op = if enabled_kinds.contains(&"plural") && (key_pool.is_empty() || rng.chance(1, 6)) {
-            if rng.chance(1, 3) {
+            if rng.chance(1, 5) {
+                Op { route: Route::CtxPlural, idx: rng.below(2), locale, val: rng.below(COUNTS.len()) }
+            } else if rng.chance(1, 3) {
                 Op { route: Route::PluralMacro, idx: rng.below(2), locale, val: rng.below(COUNTS.len()) }
             } else {
                 Op { route: if rng.chance(1, 2) { Route::PluralCardinal } else { Route::PluralOrdinal }, idx: 0, locale, val: rng.below(COUNTS.len()) }
@@ -187,7 +199,9 @@ pub fn generate(rng: &mut Rng, with_faults: bool) -> Plan {
                     if r < 5 || site_pool.is_empty() {
                         let idx = *rng.pick(&key_pool);
                         let numeric = matches!(KEYS[idx].spec, Spec::Number(_) | Spec::Currency(..));
-                        if numeric && rng.chance(1, 4) {
+                        if numeric && idx % 3 == 0 && rng.chance(1, 6) {
+                            Op { route: Route::KeyTyped, idx, locale, val: rng.below(fixture_table::TYPED.len()) }
+                        } else if numeric && rng.chance(1, 4) {
                             Op { route: Route::KeyF64, idx, locale, val: rng.below(fixture::F64S.len()) }
                         } else {
                             Op { route: if r < 1 { Route::KeyView } else if r < 2 { Route::KeyDisplay } else { Route::KeyString }, idx, locale, val: rng.below(n_vals) }
@@ -282,11 +296,33 @@ fn exec_op(op: &Op, vals: &[Val]) -> String {
                 let i18n = init_i18n_context_with_options(opts);
                 i18n.set_locale(loc);
                 let view = fixture_table::call_site_ctx(op.idx, i18n, op.val);
+                // created under the first locale, rendered only after the change
+                let untracked = fixture_table::call_site_ctx_untracked(op.idx, i18n, op.val);
                 let first = view();
                 i18n.set_locale(locale_of(op.locale2()));
                 let second = view();
                 let strings = fixture_table::call_site_ctx_string(op.idx, i18n, &vals[op.val]);
-                format!("{first}\u{1}{second}\u{1}{strings}")
+                let ustrings = fixture_table::call_site_ctx_string_untracked(op.idx, i18n, &vals[op.val]);
+                let late = untracked();
+                format!("{first}\u{1}{second}\u{1}{strings}\u{1}{ustrings}\u{1}{late}")
+            });
+            owner.cleanup();
+            out
+        }
+        Route::KeyTyped => fixture_table::call_key_typed(op.idx, loc, op.val % fixture_table::TYPED.len()).unwrap_or_default(),
+        Route::CtxPlural => {
+            use leptos::prelude::*;
+            use leptos_i18n::context::{init_i18n_context_with_options, I18nContextOptions, UseLocalesOptions};
+            let owner = Owner::new();
+            let out = owner.with(|| {
+                let opts = I18nContextOptions::<Locale>::default().enable_cookie(false).ssr_lang_header_getter(UseLocalesOptions::default().ssr_lang_header_getter(|| Some(String::new())));
+                let i18n = init_i18n_context_with_options(opts);
+                i18n.set_locale(loc);
+                let (tracked, untracked) = fixture_table::call_ctx_plural(op.idx == 1, i18n, COUNTS[op.val % COUNTS.len()]);
+                let first = tracked();
+                i18n.set_locale(locale_of(op.locale2()));
+                let (_, untracked2) = fixture_table::call_ctx_plural(op.idx == 1, i18n, COUNTS[op.val % COUNTS.len()]);
+                format!("{first}\u{1}{untracked}\u{1}{}\u{1}{untracked2}", tracked())
             });
             owner.cleanup();
             out
@@ -325,8 +361,21 @@ pub fn expected(op: &Op, vals: &[Val]) -> Result<String, String> {
             let view = |l: &str| fixture::reference(SITES[op.idx].spec, l, &vals[op.val]).map(|s| if s.is_empty() { " ".to_string() } else { s });
             let plain = fixture::reference(SITES[op.idx].spec, LOCALES[op.locale2()], &vals[op.val]);
             match (view(loc), view(LOCALES[op.locale2()]), plain) {
-                (Ok(a), Ok(b), Ok(s)) => Ok(format!("{a}\u{1}{b}\u{1}{s}\u{2}{s}")),
+                (Ok(a), Ok(b), Ok(s)) => Ok(format!("{a}\u{1}{b}\u{1}{s}\u{2}{s}\u{1}{s}\u{2}{s}\u{1}{b}")),
                 (Err(e), _, _) | (_, Err(e), _) | (_, _, Err(e)) => Err(e),
+            }
+        }
+        Route::KeyTyped => {
+            let dec = fixture_table::TYPED[op.val % fixture_table::TYPED.len()].1;
+            let fd: fixed_decimal::FixedDecimal = dec.parse().expect("hand-written decimal");
+            fixture::reference_with_decimal(KEYS[op.idx].spec, loc, &fd).map(|s| format!("{}|{s}", if KEYS[op.idx].only_in_default { "en" } else { loc }))
+        }
+        Route::CtxPlural => {
+            let c = COUNTS[op.val % COUNTS.len()];
+            let l2 = LOCALES[op.locale2()];
+            match (fixture::reference_plural_category(op.idx == 1, loc, c), fixture::reference_plural_category(op.idx == 1, l2, c)) {
+                (Ok(a), Ok(b)) => Ok(format!("{a}\u{1}{a}\u{1}{b}\u{1}{b}")),
+                (Err(e), _) | (_, Err(e)) => Err(e),
             }
         }
         Route::PluralCardinal => fixture::reference_plural(false, loc, COUNTS[op.val]),
@@ -473,7 +522,12 @@ pub fn execute(plan: &Plan, rng: &mut Rng) -> Result<Outcome, String> {
     }
     let multi = plan.threads.iter().filter(|t| !t.is_empty()).count() > 1;
     let contended = schedule.iter().filter(|(_, _, n)| *n > 1).count();
+    let mut routes: BTreeMap<&'static str, u64> = BTreeMap::new();
+    for op in plan.threads.iter().flatten() {
+        *routes.entry(op.route.name()).or_default() += 1;
+    }
     let stats = json!({
+        "routes": routes,
         "ops": plan.threads.iter().map(|t| t.len()).sum::<usize>(), "threads": n, "compared": n_cmp, "unsupported_by_icu": n_unsupported,
         "faults_fired": fired.len(), "fault_panics_allowed": n_fault_panics, "ok_after_fault": n_after_fault_ok,
         "constructions": constructions.len(), "distinct_slots": slots.len(), "steps": schedule.len(),
